@@ -174,12 +174,6 @@ def style_headers(frame, world, dims, rng_bits):
             k += 1
         elif c["role"] == "value":
             c["header"] = world["layout"]["value_name"]
-    if style == "items":
-        # documented behaviour stops looking for dimension columns at the first non-dimension column:
-        # keep the dimension columns in front (DESIGN.md 8 #15)
-        order = [i for i, c in enumerate(frame.cols) if c["role"] == "dim"] + [i for i, c in enumerate(frame.cols) if c["role"] != "dim"]
-        frame.cols = [frame.cols[i] for i in order]
-        frame.rows = [[r[i] for i in order] for r in frame.rows]
 
 
 def to_dataframe(frame, index):
@@ -225,13 +219,7 @@ def apply_fault(frame, f, dims, st):
         else:
             if len(frame.cols) < 2:
                 return False
-            if any(c.get("ident") == "items" for c in frame.cols):
-                # items-only identification: permute the dimension columns among themselves only
-                dimi = [i for i, c in enumerate(frame.cols) if c["role"] == "dim"]
-                rest = [i for i, c in enumerate(frame.cols) if c["role"] != "dim"]
-                order = [dimi[i] for i in rs.permutation(len(dimi))] + [rest[i] for i in rs.permutation(len(rest))]
-            else:
-                order = list(rs.permutation(len(frame.cols)))
+            order = list(rs.permutation(len(frame.cols)))
             frame.cols = [frame.cols[i] for i in order]
             frame.rows = [[r[i] for i in order] for r in frame.rows]
         return True
@@ -984,8 +972,7 @@ class IoChan(Engine):
         return ["values are pairwise distinct, non-zero (except deliberate zeros), not integer-valued and >= 5000, items are < 3000: a value can never be "
                 "mistaken for an item and every imported entry is attributable to one record",
                 "unknown-item tokens are type-compatible with the dimension (9999 for int items, a string otherwise)",
-                "items-only identification is generated with the dimension columns in front of the value column (the reader stops at the first "
-                "non-dimension column; see DESIGN.md section 8 #15) and with complete item sets; otherwise 'raise or lenient result, never wrong data' is demanded",
+                "items-only identification is asserted for complete item sets only; otherwise 'raise or lenient result, never wrong data' is demanded",
                 "a wide layout over an untyped dimension with int items is not sent through text media (nothing in the file says the headers are ints)",
                 "after a mid-line truncation the torn line's entries are exempt; after an interrupt the target must be bitwise old or completely new"]
 
